@@ -1,19 +1,10 @@
-//! C12: bytes -> (topic, filter) strings; same oracle as the proptest campaign.
+//! libFuzzer front end of the `topic` target; decoding and oracle live in the harness library
+//! (harness/src/fuzzdec.rs) so that a crashing input can be replayed through `vcheck --replay`.
 #![no_main]
 use libfuzzer_sys::fuzz_target;
 
 fuzz_target!(|data: &[u8]| {
-    let Ok(s) = std::str::from_utf8(data) else { return };
-    let (topic, filter) = match s.split_once('\n') {
-        Some(x) => x,
-        None => (s, ""),
-    };
-    for x in [topic, filter] {
-        if let Err(f) = vcheck::props::c12::check_string(x) {
-            panic!("C12 violated: {} :: {}", f.signature, f.detail);
-        }
-    }
-    if let Err(f) = vcheck::props::c12::check_pair(topic, filter) {
-        panic!("C12 violated: {} :: {}", f.signature, f.detail);
+    if let Err(f) = vcheck::fuzzdec::run_target("topic", data) {
+        panic!("property violated: {} :: {}", f.signature, f.detail);
     }
 });
